@@ -1,4 +1,5 @@
 CONSTANTS
+  Collisions = {"none", "not3", "xy3", "ab4"}
   Spellings = {"merged", "split", "split_rev", "apart"}
   Idents = {"UserId", "A", "Foo", "FooBar", "Foo2Bar", "HTTPServer", "IOError", "ID", "URL", "HTTP2", "Init", "Default", "None", "Class", "In", "Self_"}
   Renames = {"none", "x", "foo-bar", "Other_Name", "init", "default"}
